@@ -2,7 +2,7 @@
 import itertools, re
 import z3
 from .. import run as R, clienttable as T, mapmodels as MM
-from ..sym import Executor, Node, Ptr, Opaque
+from ..sym import Executor, Node, Ptr, Opaque, OBJ
 
 VALIDATION = {}
 
@@ -22,6 +22,7 @@ class Drv:
         self.b_unsub = b(r"^fn build_unsubscribe_message\(_1: &mut RequestManager")
         self.b_notif_ins = b(T.MGR + r"insert_notification_handler\(")
         self.b_notif_rm = b(T.MGR + r"remove_notification_handler\(")
+        self.b_notif_proc = b(r"^fn process_notification\(_1: &mut RequestManager")
         self.abnormal = []
         self.nsym = itertools.count()
 
@@ -98,6 +99,44 @@ class Drv:
             out += [t2 for t2, _ in self.step([t], self.b_unsub, lambda ex, key=key: [T.id_number(ex, sid), key.clone()], label)]
         return out
 
+    def op_notif_register(self, tables, i):
+        m = Opaque(z3.Const(f"notif{i}.method", OBJ))
+
+        def sender(ex):
+            a = Node(f"notif{i}.handler", "SubscriptionSender")
+            inner = Node(a.name + ".0", None)
+            inner.val = Opaque(z3.Const("tx:" + a.name, OBJ))
+            a.kids[0] = inner
+            return a
+        out = self.step(tables, self.b_notif_ins, lambda ex: [m, sender(ex)], f"notif_register{i}")
+        return [t for t, p in out if not self.ex.feasible(t.pc + [self.ex.discr_of(p.ret) != 0])], m
+
+    def op_notif_unregister(self, tables, m, label):
+        return [t for t, _ in self.step(tables, self.b_notif_rm, lambda ex: [m], label)]
+
+    def op_notif_arrives_closed(self, tables, m, label):
+        """a notification for method m arrives after the application dropped its receiver: the send reports Closed"""
+        fi_m = R.field_index("Notification", "method")
+
+        def mk(ex):
+            n = Node("mnotif." + label, "Notification")
+            k = Node(f"{n.name}.{fi_m}", None)
+            k.val = m
+            n.kids[fi_m] = k
+            return [n]
+        out = []
+        for t, p in self.step(tables, self.b_notif_proc, mk, label):
+            sends = [e for e in p.events if e.kind == "call" and "::try_send" in e.callee]
+            if not sends:
+                continue
+            r = sends[0].ret
+            # keep the paths on which try_send answered Err(Closed)
+            err = self.ex.child(r, ("Err", 0), None)
+            if self.ex.feasible(t.pc + [self.ex.discr_of(r) != 1]) or self.ex.feasible(t.pc + [self.ex.discr_of(err) != 1]):
+                continue
+            out.append(t)
+        return out
+
     def active(self, t, sid):
         return self.sub_key_for(t.mgr, sid) is not None
 
@@ -112,6 +151,9 @@ def _lifecycles():
         # accepted, but the caller's future is already gone: the client builds an unsubscribe request at once and the
         # server acknowledges it
         "sub-dropped-then-ack": (["sub", "sub_answer", "unsub_ack"], "dropped"),
+        # a method-notification handler: unregistered by the application, or its receiver dropped and the next notification finds it closed
+        "notif-handler-unregistered": (["notif_register", "notif_unregister"], None),
+        "notif-handler-dropped": (["notif_register", "notif_closed"], None),
     }
 
 
@@ -130,7 +172,25 @@ def classify(d, t, sid):
     return "refused"
 
 
+def run_overlap(d, tables, i):
+    """two subscriptions alive at the same time (the server may even hand both the same subscription id): A accepted, B answered
+    (accepted or refused, as the table decides), A unsubscribed + acknowledged, B likewise if it became active"""
+    ids = {}
+    tables, ids["sid"], ids["uid"] = d.op_sub(tables, i)
+    tables = d.op_answer(tables, ids["sid"], f"sub_answer{i}")
+    tables = d.merged([t for t in tables if classify(d, t, ids["sid"]) == "active"])
+    tables, ids["sid_b"], ids["uid_b"] = d.op_sub(tables, i + 50)
+    tables = d.merged(d.op_answer(tables, ids["sid_b"], f"sub_answer{i + 50}"))
+    tables = d.merged(d.op_app_unsubscribe(tables, ids["sid"], f"app_unsub{i}"))
+    tables = d.merged(d.op_answer(tables, ids["uid"], f"unsub_ack{i}"))
+    tables = d.merged(d.op_app_unsubscribe(tables, ids["sid_b"], f"app_unsub{i + 50}"))
+    tables = d.merged(d.op_answer(tables, ids["uid_b"], f"unsub_ack{i + 50}"))
+    return tables, ids
+
+
 def run_cycle(d, tables, name, i):
+    if name == "subs-overlap":
+        return run_overlap(d, tables, i)
     ops, want = _lifecycles()[name]
     ids = {}
     for op in ops:
@@ -149,6 +209,12 @@ def run_cycle(d, tables, name, i):
             tables = d.op_app_unsubscribe(tables, ids["sid"], f"app_unsub{i}")
         elif op == "unsub_ack":
             tables = d.op_answer(tables, ids["uid"], f"unsub_ack{i}")
+        elif op == "notif_register":
+            tables, ids["_method"] = d.op_notif_register(tables, i)
+        elif op == "notif_unregister":
+            tables = d.op_notif_unregister(tables, ids["_method"], f"notif_unregister{i}")
+        elif op == "notif_closed":
+            tables = d.op_notif_arrives_closed(tables, ids["_method"], f"notif_closed{i}")
         tables = d.merged(tables)
     return tables, ids
 
@@ -157,7 +223,7 @@ def obligations(tier, seed):
     core = R.bodies("core")
     out = []
     cycles = list(_lifecycles())
-    seqs = [[c] for c in cycles]
+    seqs = [[c] for c in cycles] + [["subs-overlap"]]
     if tier == "thorough":
         seqs += [[a, b] for a in cycles for b in cycles]
     else:
@@ -171,7 +237,7 @@ def obligations(tier, seed):
             allids.append(ids)
         nm = "lifecycle:" + "+".join(seq)
         # all request ids the client allocated are pairwise different (monotonic id allocator)
-        idsyms = [v for ids in allids for v in ids.values()]
+        idsyms = [v for ids in allids for k_, v in ids.items() if not k_.startswith("_")]
         distinct = z3.Distinct(*idsyms) if len(idsyms) > 1 else z3.BoolVal(True)
         reach, residues = [], {}
         kinds = R.source_tables()["enums"]["Kind"]
@@ -215,6 +281,9 @@ def obligations(tier, seed):
             if r["status"] == "violated":
                 r["model"] = {"residue": what, "steps": items[0][1]}
                 r["replay"] = {"scenario": "c18_lifecycle", "args": {"cycles": seq}}
+                if what.startswith("notification_handlers"):
+                    # over a socket the drop itself unregisters the handler; the leftover needs the drop-time message to be lost (full queue)
+                    r["replay"] = {"scenario": "c05_drop_full_queue", "args": {"kind": "handler"}}
                 r["key"] = "mirsym:c18:residue:" + what
             out.append(r)
         out.append(R.decide(nm + ":no-panic", "kernel", z3.Or(*panics) if panics else z3.BoolVal(False), [z3.Or(*reach)],
